@@ -554,4 +554,328 @@ theorem streamDouble_of_parse {sci : Char} (hsci : sci = 'e' ∨ sci = 'E') {s :
       rw [this] at h; cases h
     · exact streamUnsigned_of_parse hsci h
 
+/-! ### integers: the loop of `isDecimalInteger`, its grammar and values -/
+
+section IntLoop
+variable {sci : Char} (hs : isDigit sci = false)
+include hs
+
+theorem intLoop_digits (sciN : Nat) (h2 : sciN ≤ 1) (l : Str) (dig : Nat) :
+    intLoop sci sciN dig l
+      = intLoop sci sciN (dig + (l.takeWhile isDigit).length) (l.dropWhile isDigit) := by
+  induction l generalizing dig with
+  | nil => simp
+  | cons c rest ih =>
+    by_cases hc : isDigit c = true
+    · have e2 := isDigit_ne hc hs
+      rw [intLoop.eq_def]
+      simp only [e2, hc, List.takeWhile_cons, List.dropWhile_cons, List.length_cons]
+      have : ¬ (1 < sciN) := by omega
+      simp [*]
+      rw [Nat.add_assoc, Nat.add_comm 1]
+    · simp [List.takeWhile_cons, List.dropWhile_cons, hc]
+
+theorem intLoop_exp (l : Str) (dig : Nat) (hd : 0 < dig) :
+    intLoop sci 1 dig l = l.all isDigit := by
+  induction l generalizing dig with
+  | nil => simp [intLoop, hd]
+  | cons c rest ih =>
+    rw [intLoop.eq_def]
+    by_cases h2 : (c == sci) = true
+    · have : c = sci := by simpa using h2
+      subst this
+      have hne : ¬ dig = 0 := by omega
+      simp [hs, hne]
+      cases rest <;> simp
+    · by_cases hc : isDigit c = true
+      · simp [h2, hc]; exact ih (dig + 1) (by omega)
+      · simp [h2, hc]
+
+def intExpOk (r : Str) : Bool :=
+  match r with
+  | [] => false
+  | c2 :: rest2 =>
+    if c2 == '-' then false
+    else if c2 == '+' then !rest2.isEmpty && rest2.all isDigit
+    else (c2 :: rest2).all isDigit
+
+theorem intLoop_sci (dig : Nat) (r : Str) :
+    intLoop sci 0 dig (sci :: r) = (decide (0 < dig) && intExpOk r) := by
+  rw [intLoop.eq_def]
+  simp only [beq_self_eq_true, if_true]
+  by_cases hd : dig = 0
+  · simp [hd]
+  · have hpos : 0 < dig := by omega
+    cases r with
+    | nil => simp [hd, intExpOk]
+    | cons c2 rest2 =>
+      by_cases hm : (c2 == '-') = true
+      · simp [hd, intExpOk, hm]
+      · by_cases hsg : (c2 == '+') = true
+        · cases rest2 with
+          | nil => simp [hd, intExpOk, hsg, hm]
+          | cons c3 rest3 =>
+            have := intLoop_exp hs (c3 :: rest3) dig hpos
+            simp [hd, intExpOk, hsg, hm, this, hpos]
+        · have := intLoop_exp hs (c2 :: rest2) dig hpos
+          simp [hd, intExpOk, hsg, hm, this, hpos]
+
+omit hs in
+theorem parseIntExp_isSome (r : Str) : (parseIntExp r).isSome = intExpOk r := by
+  cases r with
+  | nil => simp [parseIntExp, intExpOk]
+  | cons c2 rest2 =>
+    by_cases h2 : c2 = '+'
+    · subst h2; cases h : (!rest2.isEmpty && rest2.all isDigit) <;> simp [parseIntExp, intExpOk, h]
+    · by_cases h1 : c2 = '-'
+      · subst h1
+        have : isDigit '-' = false := by decide
+        simp [parseIntExp, intExpOk, this]
+      · unfold parseIntExp
+        split
+        · rename_i heq; simp at heq; exact absurd heq.1 h2
+        · cases h : (isDigit c2 && rest2.all isDigit) <;> simp [intExpOk, h1, h2, h]
+
+theorem intLoop_eq_parse (neg : Bool) (l : Str) :
+    intLoop sci 0 0 l = (parseIntUnsigned sci neg l).isSome := by
+  rw [intLoop_digits hs 0 (by omega) l 0]
+  unfold parseIntUnsigned
+  generalize l.takeWhile isDigit = ip
+  cases hdw : l.dropWhile isDigit with
+  | nil => cases ip <;> simp [intLoop]
+  | cons c r =>
+    have hc := dropWhile_head_false hdw
+    by_cases h2 : (c == sci) = true
+    · have : c = sci := by simpa using h2
+      subst this
+      rw [intLoop_sci hs]
+      cases ip <;> simp [parseIntExp_isSome]
+    · rw [intLoop.eq_def]
+      cases ip <;> simp [h2, hc]
+
+theorem isDecimalInteger_eq_parse (s : Str) :
+    isDecimalInteger sci s = (parseInteger sci s).isSome := by
+  by_cases he : isEmptyStr s = true
+  · have : parseInteger sci s = none := by
+      cases s with
+      | nil => simp [parseInteger, parseIntUnsigned]
+      | cons c r =>
+        have hsp : isSpace c = true := by simp [isEmptyStr] at he; exact he.1
+        have hd := isSpace_not_digit hsp
+        unfold parseInteger
+        split
+        · rename_i heq; simp at heq; rw [heq.1] at hsp; exact absurd hsp (by decide)
+        · simp [parseIntUnsigned, List.takeWhile_cons, hd]
+    simp [isDecimalInteger, he, this]
+  · unfold isDecimalInteger parseInteger
+    simp only [he, Bool.false_eq_true, if_false]
+    split
+    · exact intLoop_eq_parse hs true _
+    · exact intLoop_eq_parse hs false _
+
+end IntLoop
+
+def intExStr (sci : Char) : Option (Bool × Str) → Str
+  | none => []
+  | some (plus, ds) => sci :: ((if plus then ['+'] else []) ++ ds)
+
+theorem intRender_eq (sci : Char) (p : IntParts) :
+    p.render sci = (if p.neg then ['-'] else []) ++ (p.ip ++ intExStr sci p.ex) := by
+  unfold IntParts.render intExStr
+  rcases p with ⟨neg, ip, ex⟩
+  cases ex with
+  | none => simp
+  | some e => rcases e with ⟨pl, ds⟩; simp
+
+theorem parseIntExp_some {r : Str} {pl : Bool} {ds : Str} (h : parseIntExp r = some (pl, ds)) :
+    r = (if pl then ['+'] else []) ++ ds ∧ AllDigits ds ∧ ds ≠ [] := by
+  unfold parseIntExp at h
+  split at h
+  · split at h
+    · rename_i hh; simp at h; rcases h with ⟨rfl, rfl⟩
+      simp at hh; exact ⟨by simp, allDigits_of_all (by simpa using hh.2), hh.1⟩
+    · cases h
+  · split at h
+    · rename_i hh; simp at h; rcases h with ⟨rfl, rfl⟩
+      simp at hh; exact ⟨by simp, allDigits_of_all (by simpa using hh.2), hh.1⟩
+    · cases h
+
+theorem parseIntExp_render {pl : Bool} {ds : Str} (hds : AllDigits ds) (hne : ds ≠ []) :
+    parseIntExp ((if pl then ['+'] else []) ++ ds) = some (pl, ds) := by
+  have hall := all_of_allDigits hds
+  have hemp : ds.isEmpty = false := by cases ds <;> simp at hne ⊢
+  cases pl with
+  | true => simp [parseIntExp, hall, hemp]
+  | false =>
+    cases ds with
+    | nil => exact absurd rfl hne
+    | cons c t =>
+      have hc : isDigit c = true := hds c (List.mem_cons_self ..)
+      have h2 : c ≠ '+' := by intro h; subst h; revert hc; decide
+      simp only [Bool.false_eq_true, if_false, List.nil_append]
+      unfold parseIntExp
+      split
+      · rename_i heq; simp at heq; exact absurd heq.1 h2
+      · simp [hall] at *
+
+section IntGrammar
+variable {sci : Char} (hs : isDigit sci = false)
+include hs
+
+theorem parseIntUnsigned_sound {neg : Bool} {l : Str} {p : IntParts}
+    (h : parseIntUnsigned sci neg l = some p) :
+    p.WF ∧ p.neg = neg ∧ l = p.ip ++ intExStr sci p.ex ∧ p.ip = l.takeWhile isDigit := by
+  unfold parseIntUnsigned at h
+  have hl := (List.takeWhile_append_dropWhile (p := isDigit) (l := l)).symm
+  have hip := allDigits_takeWhile l
+  split at h
+  · cases h
+  · rename_i hne
+    have hne' : l.takeWhile isDigit ≠ [] := by
+      intro hh; rw [hh] at hne; simp at hne
+    split at h
+    · rename_i hdw
+      simp at h; subst h
+      rw [hdw] at hl
+      exact ⟨⟨hip, hne', trivial⟩, rfl, by simpa [intExStr] using hl, rfl⟩
+    · rename_i c r hdw
+      split at h
+      · rename_i hc
+        have : c = sci := by simpa using hc
+        subst this
+        cases he : parseIntExp r with
+        | none => simp [he] at h
+        | some e =>
+          rcases e with ⟨pl, ds⟩
+          simp [he] at h; subst h
+          have := parseIntExp_some he
+          rw [hdw] at hl
+          refine ⟨⟨hip, hne', this.2.1, this.2.2⟩, rfl, ?_, rfl⟩
+          simp only [intExStr]; rw [← this.1]; exact hl
+      · cases h
+
+theorem parseIntUnsigned_complete (p : IntParts) (hwf : p.WF) :
+    parseIntUnsigned sci p.neg (p.ip ++ intExStr sci p.ex) = some p := by
+  rcases p with ⟨neg, ip, ex⟩
+  rcases hwf with ⟨hip, hne, hex⟩
+  simp only at hip hne hex ⊢
+  have hexs : ∀ c r, intExStr sci ex = c :: r → isDigit c = false := by
+    intro c r h
+    cases ex with
+    | none => simp [intExStr] at h
+    | some e => rcases e with ⟨pl, ds⟩; simp [intExStr] at h; rw [← h.1]; exact hs
+  have h1 := span_digits (ip := ip) (rest := intExStr sci ex) hip hexs
+  have hemp : ip.isEmpty = false := by cases ip <;> simp at hne ⊢
+  unfold parseIntUnsigned
+  simp only [h1.1, h1.2, hemp, Bool.false_eq_true, if_false]
+  cases ex with
+  | none => simp [intExStr]
+  | some e =>
+    rcases e with ⟨pl, ds⟩
+    simp only at hex
+    simp [intExStr, parseIntExp_render hex.1 hex.2]
+
+theorem parseInteger_sound {s : Str} {p : IntParts} (h : parseInteger sci s = some p) :
+    p.WF ∧ s = p.render sci := by
+  unfold parseInteger at h
+  rw [intRender_eq]
+  split at h
+  · have := parseIntUnsigned_sound hs h
+    refine ⟨this.1, ?_⟩
+    rw [this.2.1]; simp only [if_true]; rw [List.singleton_append, ← this.2.2.1]
+  · have := parseIntUnsigned_sound hs h
+    refine ⟨this.1, ?_⟩
+    rw [this.2.1]; simp only [Bool.false_eq_true, if_false, List.nil_append]; exact this.2.2.1
+
+theorem parseInteger_complete (p : IntParts) (hwf : p.WF) :
+    parseInteger sci (p.render sci) = some p := by
+  have hc := parseIntUnsigned_complete hs p hwf
+  rw [intRender_eq]
+  cases hneg : p.neg with
+  | true =>
+    rw [hneg] at hc
+    simp only [if_true, List.singleton_append]
+    unfold parseInteger
+    exact hc
+  | false =>
+    rw [hneg] at hc
+    simp only [Bool.false_eq_true, if_false, List.nil_append]
+    unfold parseInteger
+    split
+    · rename_i r heq
+      exfalso
+      rcases hwf with ⟨hip, hne, _⟩
+      cases hipc : p.ip with
+      | cons a t =>
+        rw [hipc] at heq; simp at heq
+        have : isDigit a = true := hip a (by rw [hipc]; exact List.mem_cons_self ..)
+        rw [heq.1] at this; revert this; decide
+      | nil => exact hne hipc
+    · exact hc
+
+theorem streamIntUnsigned_of_parse {neg : Bool} {l : Str} {p : IntParts}
+    (h : parseIntUnsigned sci neg l = some p) :
+    streamIntUnsigned neg l = clampInt (if p.neg then - (digitsVal p.ip : Int) else (digitsVal p.ip : Int)) := by
+  have := parseIntUnsigned_sound hs h
+  have hne : p.ip ≠ [] := this.1.2.1
+  unfold streamIntUnsigned
+  rw [← this.2.2.2, this.2.1]
+  cases hh : p.ip with
+  | nil => exact absurd hh hne
+  | cons a t => simp
+
+/-- what the stream reads from a grammatical integer: the (clamped) mantissa, whatever the exponent -/
+theorem streamInt_of_parse {s : Str} {p : IntParts} (h : parseInteger sci s = some p) :
+    streamInt s = clampInt (if p.neg then - (digitsVal p.ip : Int) else (digitsVal p.ip : Int)) := by
+  unfold parseInteger at h
+  unfold streamInt
+  split at h
+  · exact streamIntUnsigned_of_parse hs h
+  · rename_i hn
+    split
+    · rename_i r; exact absurd rfl (hn r)
+    · rename_i r
+      exfalso
+      have hd : isDigit '+' = false := by decide
+      have : parseIntUnsigned sci false ('+' :: r) = none := by
+        simp [parseIntUnsigned, List.takeWhile_cons, hd]
+      rw [this] at h; cases h
+    · exact streamIntUnsigned_of_parse hs h
+
+end IntGrammar
+
+/-! ### `toString(int)` then `toInt` -/
+
+theorem digitChar_isDigit {d : Nat} (h : d < 10) : isDigit (digitChar d) = true := by
+  have : d = 0 ∨ d = 1 ∨ d = 2 ∨ d = 3 ∨ d = 4 ∨ d = 5 ∨ d = 6 ∨ d = 7 ∨ d = 8 ∨ d = 9 := by omega
+  rcases this with rfl | rfl | rfl | rfl | rfl | rfl | rfl | rfl | rfl | rfl <;> decide
+
+theorem digitVal_digitChar {d : Nat} (h : d < 10) : digitVal (digitChar d) = d := by
+  have : d = 0 ∨ d = 1 ∨ d = 2 ∨ d = 3 ∨ d = 4 ∨ d = 5 ∨ d = 6 ∨ d = 7 ∨ d = 8 ∨ d = 9 := by omega
+  rcases this with rfl | rfl | rfl | rfl | rfl | rfl | rfl | rfl | rfl | rfl <;> decide
+
+theorem digitsVal_append_single (l : Str) (c : Char) : digitsVal (l ++ [c]) = 10 * digitsVal l + digitVal c := by
+  simp [digitsVal, List.foldl_append]
+
+theorem natDigits_spec (n : Nat) :
+    AllDigits (natDigits n) ∧ natDigits n ≠ [] ∧ digitsVal (natDigits n) = n := by
+  induction n using Nat.strongRecOn with
+  | _ n ih =>
+    rw [natDigits]
+    by_cases h : n < 10
+    · simp only [h, dite_true]
+      refine ⟨?_, by simp, ?_⟩
+      · intro c hc; simp at hc; subst hc; exact digitChar_isDigit h
+      · simp [digitsVal, digitVal_digitChar h]
+    · simp only [h, dite_false]
+      have hlt : n / 10 < n := by omega
+      obtain ⟨h1, h2, h3⟩ := ih (n / 10) hlt
+      have hm : n % 10 < 10 := by omega
+      refine ⟨?_, by simp, ?_⟩
+      · intro c hc
+        rcases List.mem_append.mp hc with hc | hc
+        · exact h1 c hc
+        · simp at hc; subst hc; exact digitChar_isDigit hm
+      · rw [digitsVal_append_single, h3, digitVal_digitChar hm]; omega
+
 end Bpp.Text.Number
